@@ -368,6 +368,20 @@ def case_cqm_fix(ctx, r, B):
         if attrs(q) != attrs(c):
             ctx.fail('property', site, ic, f'constraint attributes changed: {attrs(q)} vs {attrs(c)}', repro=repro)
             return
+        # round 8: every read accessor of every expression of the result reports one polynomial (the energy checks below read
+        # through iter_linear / iter_quadratic only)
+        from harness.props import accessors as ACC
+        for ename, get in exprs:
+            try:
+                bad, _ = ACC.disagreements(get(q))
+            except Exception as e:  # noqa
+                bad = [('reading', f'{type(e).__name__}: {e}')]
+            ctx.tick(f'{site}: read accessors compared')
+            if bad:
+                tgt = ('a' if path == 'in place' else 'b') + ('.objective' if ename == 'objective' else f'.constraints[{ename[len("constraint "):]}].lhs')
+                ctx.fail('property', site, ic + f'; read accessors; accessor={bad[0][0].split("(")[0].strip()}', f'{ename}: {bad[0][0]}: {bad[0][1]}',
+                         repro=R.script(ACC.repro_src(tgt)))
+                return
         for v in rest:
             if q.vartype(v) != c.vartype(v) or q.lower_bound(v) != c.lower_bound(v) or q.upper_bound(v) != c.upper_bound(v):
                 ctx.fail('property', site, ic, f'vartype/bounds of {v!r} changed', repro=repro)
@@ -695,6 +709,89 @@ def case_fix_twice(ctx, r, B):
         check(R['a'], f1 + f2, site, 'two calls in sequence on one object', 'a')
 
 
+# ------------------------------------------------------------------------------------------ in-place fixing, private orders (round 8)
+
+def case_cqm_fix_history(ctx, r, B):
+    """ONE CQM whose objective / constraints list their variables in private orders (descending, interleaved, successor first,
+    rotated, random; handed over as models or built through the views), then 1-4 in-place `fix_variable` / `fix_variables`
+    (mapping, pairs, iterator) / `remove_variable` calls.  After every call, for every expression:
+      the property itself — the energy at every checked assignment x' of the remaining variables equals the energy a deep copy
+      taken BEFORE the call gives at x' extended by the fixed values (0 for a removed variable);
+      and every read accessor reports the substituted polynomial (tracked independently in exact fractions).
+    The history runs in a forked copy first, so an assertion of the code under test is a finding, not a dead harness."""
+    from harness.props import cqm_history as HIST
+    dead = HIST.canary(lambda: cqm_fix_history_body(ctx, r, HIST.LoggedRecipe()))
+    if dead is not None:
+        sig, lines = dead
+        last = lines[-1] if lines else '?'
+        m = __import__('re').search(r'\.(\w+)\(', last)
+        ctx.case(('CQM fix history', 'killed', tuple(lines)), nontrivial=True)
+        ctx.fail('crash', 'CQM.' + (m.group(1) if m else 'history'),
+                 'in-place fixing on one CQM whose expressions list their variables in a private order',
+                 f'the interpreter was killed by signal {sig} in `{last}` (failed assertion / memory error in the code under test)',
+                 repro='\n'.join(list(HIST.HEADER) + lines) + '\n', detail=dict(script=lines))
+        for _ in range(40):
+            r.random()
+        return
+    R = Recipe()
+    try:
+        cqm_fix_history_body(ctx, r, R)
+    except Exception as e:  # noqa
+        if not R.ns.get('c'):
+            raise
+        ctx.fail('property', 'CQM.fix_variable (in place)', 'expressions in a private variable order; reading the fixed model raised',
+                 f'{type(e).__name__}: {e} after `{R.lines[-1]}`', repro=R.script('for t in [c.objective] + [c.constraints[k].lhs for k in c.constraints]:\n'
+                                                                                  '    list(t.variables); dict(t.linear); dict(t.quadratic)\n'))
+
+
+def cqm_fix_history_body(ctx, r, R):
+    from harness.props import cqm_history as HIST, accessors as ACC
+    from harness.props.energy_common import domain, dict_lit
+    R.do('import copy')
+    st = HIST.build(r, R)
+    for k in range(r.randint(1, 4)):
+        if not len(R['c'].variables):
+            break
+        R.do('c0 = copy.deepcopy(c)   # the model before the call')
+        res = HIST.step(r, R, st, ops=HIST.FIX_OPS)
+        if res is None or not st.get('last'):
+            break
+        what, facts = res
+        fixed = st['last']
+        c, c0 = R['c'], R['c0']
+        mv = list(c.variables)
+        vts = {v: c.vartype(v).name for v in mv}
+        fact_txt = ''.join(f'; {f}' for f, on in sorted(facts.items()) if on)
+        site = 'CQM.remove_variable' if what == 'remove_variable' else f'CQM.{what.split("[")[0]} (in place)'
+        for target in st['targets']:
+            ic = f'call {k + 1} on one CQM; expression written in {st["styles"][target]} order{fact_txt}'
+            ctx.tick(f'{site}: {st["styles"][target]}{fact_txt}')
+            t = R.ev(target)
+            t0 = R.ev(target.replace('c.', 'c0.', 1))
+            rows = [{l: r.choice(domain(vts[l])) for l in mv} for _ in range(3)]
+            ctx.case((site, tuple(R.lines[4:]), target), nontrivial=any(v in list(t0.variables) for v in fixed))
+            for row in rows:
+                full = dict(row)
+                full.update(fixed)
+                try:
+                    e1, e0 = F(t.energy(row)), F(t0.energy(full))
+                except Exception as e:  # noqa
+                    e1, e0 = f'{type(e).__name__}: {e}', None
+                if e1 != e0:
+                    ctx.fail('property', site, ic, f'{target}: energy {e1} at {row}, but the model before the call gives {e0} at the same assignment '
+                             f'extended by {fixed}', repro=R.script(f'row = {row!r}\nfull = dict(row); full.update({fixed!r})\n'
+                                                                    f'assert F({target}.energy(row)) == F({target.replace("c.", "c0.", 1)}.energy(full)), '
+                                                                    f'({target}.energy(row), {target.replace("c.", "c0.", 1)}.energy(full))\n'))
+                    return
+            bad, ref = ACC.disagreements(t)
+            exp = st['refs'][target].poly()
+            if bad or ref != exp:
+                txt = (f'{bad[0][0]}: {bad[0][1]}' if bad else f'every accessor reports {ACC.show(ref)} but substituting {fixed} gives {ACC.show(exp)}')
+                ctx.fail('property', site, ic + '; coefficients reported afterwards', f'{target}: {txt}',
+                         repro=R.script(ACC.repro_src(target) + f'assert ref == {exp!r}, (ref, {exp!r})\n'))
+                return
+
+
 def run(ctx):
     r = ctx.rng
     B = Batch(ctx)
@@ -707,7 +804,7 @@ def run(ctx):
                 'one-shot iterables zip / generator / iter / map), CQM in place and copying; a case = one fixing call; results compared '
                 'coefficient-wise with polynomial substitution and on every assignment of the remaining variables')
     for i in range(n):
-        kind = r.choice(['model', 'model', 'cqm', 'cqm', 'cqm', 'poly', 'poly', 'comphist', 'twice'])
+        kind = r.choice(['model', 'model', 'cqm', 'cqm', 'cqm', 'poly', 'poly', 'comphist', 'twice', 'fixhist'])
         ctx.tick('kind:' + kind)
         if kind == 'model':
             case_model_fix(ctx, r, B)
@@ -717,6 +814,8 @@ def run(ctx):
             case_composite_history(ctx, r, B)
         elif kind == 'twice':
             case_fix_twice(ctx, r, B)
+        elif kind == 'fixhist':
+            case_cqm_fix_history(ctx, r, B)
         else:
             case_poly_fix(ctx, r, B)
         if len([f for f in ctx.failures if f['kind'] == 'property']) >= 12:
